@@ -55,6 +55,7 @@ type Run struct {
 	Assumptions  []string
 	Extra        map[string]any
 	MinDistinct  int
+	requires     map[string]int64
 	firstReplay  string
 }
 
@@ -127,6 +128,17 @@ func (r *Run) loadKnown() {
 		f.re = re
 		r.known = append(r.known, f)
 	}
+}
+
+// Require makes the run BROKEN (exit 3, no verdict) unless counter name reached min: a monitor that
+// observed nothing must not pass.
+func (r *Run) Require(name string, min int64) {
+	r.mu.Lock()
+	if r.requires == nil {
+		r.requires = map[string]int64{}
+	}
+	r.requires[name] = min
+	r.mu.Unlock()
 }
 
 func (r *Run) Count(name string, n int64) {
@@ -288,6 +300,12 @@ func (r *Run) FinishNoExit() int {
 	}
 	if r.violations > 0 {
 		return 1
+	}
+	for name, min := range r.requires {
+		if r.counters[name] < min {
+			fmt.Printf("BROKEN property=%s: monitor observed %s=%d, needs >= %d\n", r.ID, name, r.counters[name], min)
+			return 3
+		}
 	}
 	if r.evaluations < 1 || len(r.distinct) < r.MinDistinct {
 		fmt.Printf("BROKEN property=%s: monitors observed too little (evaluations=%d distinct=%d, need distinct>=%d)\n", r.ID, r.evaluations, len(r.distinct), r.MinDistinct)
